@@ -259,6 +259,16 @@ func GenerateCases(seed int64, n, blocks int, outPath, scratch, jsonPath, profil
 			for _, d := range diffs2 {
 				st.ForkDiffs = append(st.ForkDiffs, fmt.Sprintf("history %d (only the deliberately invalid failed transactions removed): %s", i, d))
 			}
+			for vi, variant := range []func(*History, string, string) ([]string, int, error){ForkDeleteFirstPerBlock, ForkDeleteHalf} {
+				diffs3, _, ferr := variant(h, scratch, fmt.Sprintf("fork%d-%d", 3+vi, i))
+				if ferr != nil {
+					return nil, ferr
+				}
+				st.ForkRuns++
+				for _, d := range diffs3 {
+					st.ForkDiffs = append(st.ForkDiffs, fmt.Sprintf("history %d (%s removed): %s", i, []string{"only the first failed transaction of each block", "every second failed transaction"}[vi], d))
+				}
+			}
 		}
 	}
 	return st, err
